@@ -204,6 +204,17 @@ pub fn run(ctx: &Ctx) -> Report {
                     v.reverse();
                     o.push(("nth", J::Arr(v)));
                 }
+                // random access in ASCENDING order on one reader (each access directly behind the
+                // previous one in index order, wherever the records lie physically)
+                if let Ok(mut rd) = ShapeReader::with_shx(Src::new(shp.clone()), Src::new(x.clone())) {
+                    let n = rd.shape_count().unwrap_or(0).min(cap);
+                    let v: Vec<Result<Shape, Error>> = (0..n).map(|i| rd.read_nth_shape(i).unwrap_or(Err(Error::MissingIndexFile))).collect();
+                    o.push(("nth_ascending", items(v.into_iter(), cap)));
+                }
+                // the consuming read-everything call on a reader that has the index
+                if let Ok(rd) = ShapeReader::with_shx(Src::new(shp.clone()), Src::new(x.clone())) {
+                    o.push(("read_idx", items(rd.read().map(|v| v.into_iter().map(Ok).collect::<Vec<_>>()).unwrap_or_else(|e| vec![Err(e)]).into_iter(), cap)));
+                }
                 // the .shp behind a source that hands out 1..7 bytes per read call, index intact
                 let chunk = 1 + idx % 7;
                 if let Ok(mut rd) = ShapeReader::with_shx(Src::chunked(shp.clone(), crate::iomon::Chunking::Fixed(chunk)), Src::new(x.clone())) {
